@@ -191,6 +191,7 @@ func (state *RuntimeState) generateRoleCert(template *x509.Certificate,
 	if err != nil {
 		return nil, err
 	}
+	eventNotifier.PublishX509(certDER)
 	metricLogCertDuration("x509", "granted",
 		float64(time.Until(template.NotAfter).Seconds()))
 	go func(username string, certType string) {
